@@ -6,6 +6,7 @@ mod prng;
 mod ints;
 mod cond;
 mod locks;
+mod sigs;
 
 fn main() {
     let args: Vec<String> = std::env::args().collect();
@@ -27,6 +28,7 @@ fn main() {
         "C01" => cond::run(&mut o, seed, thorough, replay),
         "C02" => cond::run_c02(&mut o, seed, thorough, replay),
         "C03" => locks::run(&mut o, seed, thorough, replay),
+        "C05" => sigs::run(&mut o, seed, thorough, replay),
         "C04" => cond::run_c04(&mut o, seed, thorough, replay),
         _ => { eprintln!("unknown property {prop}"); std::process::exit(2); }
     }
